@@ -66,6 +66,8 @@ impl FeoxStore {
                 break;
             }
 
+            #[cfg(feature = "verif")]
+            crate::verif::sched("range.entry", results.len() as u64, 0);
             let value = {
                 let record = entry.value().load(&guard);
                 self.resolve_value_ref(entry.key(), record)
